@@ -117,7 +117,6 @@ func (r *Decoder) StatementTextOffsets() encoding.StatementTextOffsets {
 func isWellFormedIRI(s string) bool {
 	var foundSchemeSeparator bool
 	var foundFragment bool
-	var foundQuery bool
 
 	for _, r := range s {
 		if r < 0x20 {
@@ -129,12 +128,6 @@ func isWellFormedIRI(s string) bool {
 			return false
 		case ':':
 			foundSchemeSeparator = true
-		case '?':
-			if foundQuery {
-				return false
-			}
-
-			foundQuery = true
 		case '#':
 			if foundFragment {
 				return false
